@@ -253,7 +253,7 @@ pub fn gen_valid(cat: &Catalogue, d: &Desc, rng: &mut Rng, cfg: &GenCfg) -> Doc 
         Desc::Array(n, x) => Doc::Seq((0..*n).map(|_| gen_valid(cat, x, rng, &deeper)).collect()),
         Desc::Tuple(xs) => Doc::Seq(xs.iter().map(|x| gen_valid(cat, x, rng, &deeper)).collect()),
         Desc::Cs(s) => cs_valid(*s, rng),
-        Desc::Json => random_doc(rng, 3),
+        Desc::Json | Desc::Phantom => random_doc(rng, 3),
         Desc::Named(i) => {
             let t = &cat.types[*i];
             match &t.kind {
@@ -495,7 +495,7 @@ impl<'a> Mutator<'a> {
             return;
         }
         match d {
-            Desc::Probe(_) => {}
+            Desc::Probe(_) | Desc::Phantom => {}
             Desc::Json => self.free_form(doc, rng),
             Desc::Scalar(s) => {
                 if self.cfg.range && self.hit(rng) {
